@@ -33,7 +33,7 @@ CODE_TABLE = ("Crng.Tie.CodeTable", ["table_dispatch_trace", "table_dispatchAggr
                                      "dispatch_order_off", "dispatch_blacklisted", "dispatch_accepted", "rewriteFields_eq", "join3"])
 CODE_ROUTE = ("Crng.Tie.CodeRoute", ["sendAll_trace", "sendFirst_trace", "metricName_eq"])
 CODE_MATCHER = ("Crng.Tie.CodeMatcher", ["matcher_match_eq", "matcher_match_spec", "matcher_prematch_eq", "matcher_regexStage_eq"])
-CODE_HASHER = ("Crng.Tie.CodeHasher", ["getDestinationIndex_eq", "getDestinationIndex_owner", "bsearch_congr", "ch_dispatch_trace", "ch_dispatch_name_only"])
+CODE_HASHER = ("Crng.Tie.CodeHasher", ["getDestinationIndex_eq", "getDestinationIndex_owner", "bsearch_congr", "ch_dispatch_trace", "ch_dispatch_name_only", "addrInstanceSplit_instance", "addrInstanceSplit_addr"])
 CODE_ORDERED = ("Crng.Tie.CodeOrdered", ["ordered_eq", "hasher_restored", "accept_iff_newer", "accepted_increasing"])
 CODE_KEEPSAFE = ("Crng.Tie.CodeKeepSafe", ["add_eq", "getAll_eq", "getAll_after_adds", "getAll_twice"])
 CODE_REWRITER = ("Crng.Tie.CodeRewriter", ["do_literal_eq", "do_not_skips", "do_regex", "do_notRe_precedence", "new_eq", "new_then_do_literal"])
